@@ -156,3 +156,60 @@ impl Conn {
         Step::Done(r, self.ch.drain())
     }
 }
+
+thread_local! { static RT: tokio::runtime::Runtime = tokio::runtime::Builder::new_multi_thread().worker_threads(2).enable_all().build().unwrap(); }
+
+/// A connection to the REAL connection tasks (`TcpTransport::run`: reading loop, writing loop,
+/// finish) over a loopback socket; the client end is a blocking std socket.
+pub struct LiveConn { pub sock: std::net::TcpStream, pub transport: Arc<RwLock<TcpTransport>> }
+impl LiveConn {
+    /// None when the sandbox has no loopback networking (the cross-check is then skipped)
+    pub fn connect(rig: &Rig, max_message_size: usize, max_chunk_count: usize) -> Option<LiveConn> {
+        let listener = std::net::TcpListener::bind("127.0.0.1:0").ok()?;
+        let addr = listener.local_addr().ok()?;
+        let sock = std::net::TcpStream::connect(addr).ok()?;
+        sock.set_read_timeout(Some(std::time::Duration::from_secs(5))).ok()?;
+        sock.set_nodelay(true).ok();
+        let (srv, _) = listener.accept().ok()?;
+        srv.set_nonblocking(true).ok()?;
+        let transport = Arc::new(RwLock::new(rig.transport(max_message_size, max_chunk_count)));
+        RT.with(|rt| {
+            let _g = rt.enter();
+            let s = tokio::net::TcpStream::from_std(srv).unwrap();
+            TcpTransport::run(transport.clone(), s, 1000.0);
+        });
+        Some(LiveConn { sock, transport })
+    }
+    pub fn send(&mut self, bytes: &[u8]) -> bool { use std::io::Write; self.sock.write_all(bytes).is_ok() }
+    /// one whole frame as sent by the server
+    pub fn read_frame(&mut self) -> Option<Vec<u8>> {
+        use std::io::Read;
+        let mut h = [0u8; 8];
+        self.sock.read_exact(&mut h).ok()?;
+        let n = u32::from_le_bytes([h[4], h[5], h[6], h[7]]) as usize;
+        if n < 8 { return None; }
+        let mut v = h.to_vec();
+        v.resize(n, 0);
+        self.sock.read_exact(&mut v[8..]).ok()?;
+        Some(v)
+    }
+    /// the class of a response frame; follows the channel/token of an OpenSecureChannelResponse
+    pub fn response_kind(cl: &mut Client, fr: Vec<u8>) -> i128 {
+        if fr.len() >= 3 && &fr[0..3] == b"ACK" { return 1; }
+        match Chunker::decode(&[MessageChunk { data: fr }], &cl.sc, None) {
+            Ok(m) => {
+                if let SupportedMessage::OpenSecureChannelResponse(r) = &m {
+                    cl.sc.set_secure_channel_id(r.security_token.channel_id);
+                    cl.sc.set_token_id(r.security_token.token_id);
+                }
+                response_kind(&m)
+            }
+            Err(_) => -1,
+        }
+    }
+    /// the server closed the socket and sent nothing more
+    pub fn expect_close(&mut self) -> bool { use std::io::Read; let mut b = [0u8; 1]; matches!(self.sock.read(&mut b), Ok(0)) }
+    /// we close our sending side; the server must close too without sending anything
+    pub fn close_and_expect_close(&mut self) -> bool { let _ = self.sock.shutdown(std::net::Shutdown::Write); self.expect_close() }
+    pub fn finish(&self) { self.transport.write().finish(StatusCode::Good); }
+}
